@@ -48,6 +48,7 @@ func (w *ConfWatcher) Initialize() error {
 	// resolve the watched path here and not in run(),
 	// in order to detect changes that happen right after Initialize()
 	watchedPath, _ := filepath.EvalSymlinks(w.absolutePath)
+	watchedInfo, _ := os.Stat(watchedPath)
 
 	err = w.inner.Add(parentPath)
 	if err != nil {
@@ -59,7 +60,7 @@ func (w *ConfWatcher) Initialize() error {
 	w.signal = make(chan struct{})
 	w.done = make(chan struct{})
 
-	go w.run(watchedPath)
+	go w.run(watchedPath, watchedInfo)
 
 	return nil
 }
@@ -70,7 +71,17 @@ func (w *ConfWatcher) Close() {
 	<-w.done
 }
 
-func (w *ConfWatcher) run(previousWatchedPath string) {
+// fileChanged reports whether the file behind the watched path was replaced or rewritten.
+func fileChanged(previous os.FileInfo, current os.FileInfo) bool {
+	if previous == nil || current == nil {
+		return previous != current
+	}
+	return !os.SameFile(previous, current) ||
+		!previous.ModTime().Equal(current.ModTime()) ||
+		previous.Size() != current.Size()
+}
+
+func (w *ConfWatcher) run(previousWatchedPath string, previousWatchedInfo os.FileInfo) {
 	defer close(w.done)
 
 	var lastCalled time.Time
@@ -86,14 +97,25 @@ outer:
 			eventPath, _ := filepath.Abs(event.Name)
 			eventPath, _ = filepath.EvalSymlinks(eventPath)
 
+			var currentWatchedInfo os.FileInfo
+			if currentWatchedPath != "" {
+				currentWatchedInfo, _ = os.Stat(currentWatchedPath)
+			}
+
+			// the file can be reached through links that are removed and restored between two events,
+			// while its content is changed from a directory that is not watched.
+			// Compare the file itself, in addition to its path.
 			if currentWatchedPath == "" {
 				// watched file was removed; wait for write event to trigger reload
 				previousWatchedPath = ""
+				previousWatchedInfo = nil
 			} else if currentWatchedPath != previousWatchedPath ||
+				fileChanged(previousWatchedInfo, currentWatchedInfo) ||
 				(eventPath == currentWatchedPath &&
 					((event.Op&fsnotify.Write) == fsnotify.Write ||
 						(event.Op&fsnotify.Create) == fsnotify.Create)) {
 				previousWatchedPath = currentWatchedPath
+				previousWatchedInfo = currentWatchedInfo
 
 				// do not signal more than once every minInterval, but never drop a change:
 				// changes that arrive too early are signaled when the interval has elapsed.
